@@ -269,7 +269,11 @@ class C19:
             "2-4 keys incl. hash-colliding pairs, over MemoryCacher or DiskCacher, with a fault plan (getter raises before / "
             "after j lines - an Exception or a KeyboardInterrupt-like BaseException -, body raises, gzip write IOError at write n, torn files + restart phase) and one seeded "
             "schedule with virtual time; non-trivial = at least two callers touched a common lock index and the baton "
-            "moved between tasks; distinct = distinct event-log digest")
+            "moved between tasks; distinct = distinct event-log digest.  One run in five is the OpenML workload instead: 2-5 worker processes "
+            "x 1-3 reads (data id / task id, complete or abandoned after k rows) of 1-2 generated datasets through the real OpenmlSource / "
+            "HttpSource / ConcurrentCacher(DiskCacher|MemoryCacher) / request semaphore (1-3), against a simulated HTTP server with a per-request "
+            "fault plan (HTTP 500/412/404, timeout before the first byte, timeout / reset / silently closed connection / Ctrl-C after the first "
+            "piece of the body) and a final fault-free reader; non-trivial there = two callers read the same dataset")
     assumptions = [
         "callers always enter the with-block of the context manager get_set returns",
         "a single caller never nests get_set on two different keys with colliding 16-bit hashes, and nested keys are "
@@ -277,14 +281,22 @@ class C19:
         "interleaving granularity: lock acquire/release, every shared-array element access, inner-cache operations, "
         "getter lines, disk writes, sleeps",
         "a system crash leaves any prefix of the gzip file that the interrupted populate would have written",
+        "OpenML workload: a body that arrives in two pieces stands for a body larger than HttpSource's 10 MB chunk; a closed connection makes "
+        "read(size) return b'' with response.length > 0 (http.client of Python 3.12, checked against a real HTTPResponse); a reader may only "
+        "raise when a fault was delivered to one of its own requests",
     ]
     real_components = ["coba.context.cachers.ConcurrentCacher", "MemoryCacher", "DiskCacher (real files on tmpfs)",
-                       "gzip (real, behind a fault shim)"]
-    stub_components = ["lock (SimLock)", "shared array (SimArray)", "time.sleep (virtual clock)",
-                       "callers / getters / with-bodies (harness)"]
+                       "gzip (real, behind a fault shim)", "coba.environments.openml.OpenmlSource (incl. its retry, semaphore and clear-cache logic)",
+                       "coba.pipes.sources.HttpSource", "ArffReader / DropRows / LabelRows"]
+    stub_components = ["lock (SimLock)", "shared array (SimArray)", "request semaphore (SimSemaphore)", "time.sleep (virtual clock)",
+                       "callers / getters / with-bodies (harness)", "urllib.request.urlopen + HTTP response (simulated OpenML server)"]
 
     # ------------------------------------------------------------------ generation
     def gen(self, rng, tier, index):
+        if rng.random() < 0.2:
+            # second workload: OpenML downloads through the shared cache, end to end (checks/c19_openml.py)
+            from checks.c19_openml import gen_openml
+            return gen_openml(rng, index)
         n_callers = weighted(rng, [(2, 4), (3, 4), (4, 2), (5, 1)])
         backend = weighted(rng, [("memory", 1), ("disk", 1)])
         shape = weighted(rng, [("threads", 1), ("procs", 1)])
@@ -295,6 +307,11 @@ class C19:
         while len(pool) < weighted(rng, [(1, 2), (2, 3), (3, 2), (4, 1)]):
             k = f"x{rng.randrange(6)}"
             if k not in pool:
+                pool.append(k)
+        if rng.random() < 0.25:
+            # two distinct keys that differ only in case (distinct entries, distinct lock slots)
+            k = pool[rng.randrange(len(pool))].upper()
+            if k not in pool and _index(k) not in {_index(x) for x in pool}:
                 pool.append(k)
         opid = [0]
 
@@ -349,6 +366,9 @@ class C19:
     # ------------------------------------------------------------------ run
     def run(self, cfg, seed, choices=None):
         from coba.context.cachers import ConcurrentCacher, MemoryCacher, DiskCacher
+        if cfg.get("kind") == "openml":
+            from checks.c19_openml import run_openml
+            return run_openml(cfg, seed, choices, make_sim, run_sim, _install_gzip_shim, _sig)
         _install_gzip_shim()
         kn = cfg["knobs"]
         sim = make_sim(seed, choices=choices, p_stay=kn["p_stay"], p_clock=kn["p_clock"], max_steps=4000)
@@ -593,7 +613,10 @@ class C19:
                         and getattr(e, "opid", None) == op["body"]["nest"]["id"]:
                     allowed = True
                 if phase == "p2" and key in mon.torn:
-                    allowed = True          # a torn file may yield an exception, never a short value
+                    # a torn file may yield an exception, never a short value.  (That includes the zero-length file: behind a ConcurrentCacher
+                    # its first caller gets a TypeError - the hit path asks DiskCacher without a getter - and the file is gone afterwards.
+                    # Making DiskCacher report an empty file as absent would contradict the pinned test_overwrite_empty_cache.)
+                    allowed = True
                     mon.hit("reach.torn_file_raised_on_read")
                 if not allowed:
                     out.append(vio("unexpected_exception", f"caller {cidx} op {opid} on {key!r} raised {e!r}"))
@@ -601,6 +624,10 @@ class C19:
 
     # ------------------------------------------------------------------ shrinking
     def shrink(self, cfg):
+        if cfg.get("kind") == "openml":
+            from checks.c19_openml import shrink_openml
+            yield from shrink_openml(cfg)
+            return
         import copy
         for ci in range(len(cfg["callers"]) - 1, -1, -1):
             if len(cfg["callers"]) > 1:
